@@ -21,6 +21,7 @@ Bug_dispStalePk == {"dispStalePk"}
 Bug_updDoubleRelease == {"updDoubleRelease"}
 \* breadth-first depth bounds for the as-is counterexample searches (deterministic caps)
 Depth30 == TLCGet("level") <= 30
+Depth36 == TLCGet("level") <= 36
 Depth40 == TLCGet("level") <= 40
 Depth50 == TLCGet("level") <= 50
 Depth60 == TLCGet("level") <= 60
